@@ -371,13 +371,16 @@ class Import(WObject):
 
     def import_schema(self, definitions, d):
         """Import schema as <types/> content."""
-        if not definitions.types:
+        # Only types of the importing document itself may take the schema:
+        # the types of an imported WSDL belong to an already built schema.
+        own = [t for t in definitions.types if t.definitions is definitions]
+        if not own:
             root = Element("types", ns=wsdlns)
             definitions.root.insert(root)
             types = Types(root, definitions)
             definitions.types.append(types)
         else:
-            types = definitions.types[-1]
+            types = own[-1]
         types.root.append(d.root)
         log.debug("imported (XSD):\n%s", d.root)
 
